@@ -299,7 +299,8 @@ def run(chk):
         if kind == "control" and rnd == 1:
             # (enumerated) a control set as a span-wise distribution of deflections (documented: float or array)
             cs_ = dict([a_ for a_ in acs if a_[0] == name][0][3])
-            cs_["elevator"] = [[0.0, cs_["elevator"]], [1.0, cs_["elevator"] + 2.0]]
+            e_ = int(round(cs_["elevator"]))
+            cs_["elevator"] = [[0, e_], [1, e_ + 2]]          # (written with integers, as JSON files often have it)
             acs = with_state(acs, name, cs=cs_)
             chk.count("control=table")
         try:
